@@ -1,2 +1,94 @@
--- stub driver, replaced by the builder of X08
-def main : IO Unit := pure ()
+import PyramidModel.Prelude
+import PyramidModel.Prefix
+/-! Driver for X08: one JSON case per line.  Text t = list of code points; OT = null | t.
+in : {"op":"tree","top":OT,"body":[S,…]}      a configuration program run on Configurator(route_prefix=top)
+       S = {"k":"route","n":t,"p":t,"inh":bool,"st":bool} | {"k":"static","n":t} | {"k":"ctx","p":OT,"b":[S,…]}
+         | {"k":"inc","p":OT,"b":[S,…]} | {"k":"try","b":[S,…]} | {"k":"raise"} | {"k":"probe"}
+     {"op":"fn","a":OT,"b":OT,"c":OT,"pat":t,"inh":bool}     the pure functions
+     {"op":"url","t":t}                                      urlparse
+out: tree {"routes":[[name,pattern],…],"statics":[[name,pattern],…],"regs":[[OT url,OT route_name],…],
+           "probes":[OT,…],"final":OT,"raised": null | "inheritSlash" | "boom",
+           "spec": bool (the lexical-scoping reading gives the same state and outcome)}
+     fn   {"ab":OT,"abc":OT,"abc2":OT,"apply":A,"nested":A,"eff":t}    A = {"err":e} | {"ok":[pattern, static]}  (add_route under a / (a∘b)∘c)
+     url  {"netloc":t,"host":t,"path":t,"safe":bool} -/
+open Pyr Pyr.Prefix Lean
+
+namespace DrvX08
+
+def textOf (j : Json) : Except String Text := do
+  let cs : List Nat ← fromJson? j
+  if cs.all Nat.isValidChar then pure (cs.map Char.ofNat) else throw "not a scalar value"
+
+def optTextOf (j : Json) : Except String (Option Text) :=
+  match j with
+  | .null => pure none
+  | _ => some <$> textOf j
+
+def jText (t : Text) : Json := toJson (t.map Char.toNat)
+
+def jOptText : Option Text → Json
+  | none => Json.null
+  | some t => jText t
+
+def arrOf (j : Json) : Except String (List Json) :=
+  match j with
+  | .arr xs => pure xs.toList
+  | _ => throw "expected a list"
+
+partial def stmtOf (j : Json) : Except String Stmt := do
+  let k : String ← getAs j "k"
+  match k with
+  | "route" =>
+    pure (.route (← textOf (← getField j "n")) (← textOf (← getField j "p")) (← getAs j "inh") (← getAs j "st"))
+  | "static" => pure (.static (← textOf (← getField j "n")))
+  | "ctx" => pure (.ctx (← optTextOf (← getField j "p")) (← (← arrOf (← getField j "b")).mapM stmtOf))
+  | "inc" => pure (.inc (← optTextOf (← getField j "p")) (← (← arrOf (← getField j "b")).mapM stmtOf))
+  | "try" => pure (.try_ (← (← arrOf (← getField j "b")).mapM stmtOf))
+  | "raise" => pure .raise
+  | "probe" => pure .probe
+  | _ => throw s!"unknown statement {k}"
+
+def jRegs (rs : List Reg) : Json := Json.arr (rs.map fun r => Json.arr #[jText r.name, jText r.pattern]).toArray
+
+def jErr : Option Err → Json
+  | none => Json.null
+  | some .inheritSlash => "inheritSlash"
+  | some .boom => "boom"
+
+def jAdd : Except Err (Text × Bool) → Json
+  | .error e => Json.mkObj [("err", jErr (some e))]
+  | .ok (p, s) => Json.mkObj [("ok", Json.arr #[jText p, s])]
+
+def run (j : Json) : Except String Json := do
+  let op : String ← getAs j "op"
+  match op with
+  | "tree" =>
+    let top ← optTextOf (← getField j "top")
+    let body ← (← arrOf (← getField j "body")).mapM stmtOf
+    let r := execL top {} body
+    let tr := traceL (leafFails top) [] body
+    let st := r.2.1
+    let specOk : Bool := decide (replay top {} tr.1 = st) && (tr.2 == r.2.2.isSome)
+    pure (Json.mkObj [("routes", jRegs st.routelist), ("statics", jRegs st.statics),
+      ("regs", Json.arr (st.regs.map fun x => Json.arr #[jOptText x.1, jOptText x.2]).toArray),
+      ("probes", Json.arr (st.probes.map jOptText).toArray), ("final", jOptText r.1), ("raised", jErr r.2.2),
+      ("spec", specOk)])
+  | "fn" =>
+    let a ← optTextOf (← getField j "a")
+    let b ← optTextOf (← getField j "b")
+    let c ← optTextOf (← getField j "c")
+    let pat ← textOf (← getField j "pat")
+    let inh : Bool ← getAs j "inh"
+    pure (Json.mkObj [("ab", jOptText (combine a b)), ("abc", jOptText (combine (combine a b) c)),
+      ("abc2", jOptText (combine a (combine b c))), ("apply", jAdd (addRoute a pat inh false)),
+      ("nested", jAdd (addRoute (combine (combine a b) c) pat inh false)),
+      ("eff", jText (effective (applyPrefix a pat inh)))])
+  | "url" =>
+    let t ← textOf (← getField j "t")
+    pure (Json.mkObj [("netloc", jText (netlocPath t).1), ("host", jText (hostOf t)), ("path", jText (netlocPath t).2),
+      ("safe", decide (UrlSafe t))])
+  | _ => throw s!"unknown op {op}"
+
+end DrvX08
+
+def main : IO Unit := Pyr.jsonDriver DrvX08.run
